@@ -6,7 +6,8 @@
 // every Lock() caller is parked in WaitGroup.Wait, no recycle goroutine is alive — and prints a dump that the
 // extracted model must reproduce (model: the client step, then scheduler steps until none is enabled).
 // Lines:  G action => result | dump      actions: L<i> Lock, U<i> SetCommitTS+UnLock, X Close,
-//         M = hold every slot mutex, UnLock ALL returned locks from goroutines (channel capacity 100), release.
+//
+//	M = hold every slot mutex, UnLock ALL returned locks from goroutines (channel capacity 100), release.
 package main
 
 import (
@@ -46,14 +47,16 @@ func unlockWorker(sc *scr, i int, done *atomic.Int64) {
 }
 
 type gstate struct {
-	runParked, runAlive bool
+	runParked, runAlive  bool
 	lockParked, lockBusy int
 	senders, unlockers   int
 	recyclers            int
 }
 
+var stackBuf = make([]byte, 8<<20)
+
 func goroutines() gstate {
-	buf := make([]byte, 4<<20)
+	buf := stackBuf
 	n := runtime.Stack(buf, true)
 	var g gstate
 	for _, blk := range strings.Split(string(buf[:n]), "\n\n") {
@@ -70,16 +73,18 @@ func goroutines() gstate {
 			}
 		case strings.Contains(body, "(*Latches).recycle"):
 			g.recyclers++
-		case strings.Contains(body, "main.lockWorker"):
-			if strings.Contains(body, "WaitGroup).Wait") && (strings.Contains(head, "[semacquire") || strings.Contains(head, "[sync.WaitGroup.Wait")) {
+		case strings.Contains(body, "created by main.runScript"):
+			// a worker of this driver (possibly not started yet: only the gowrap frame is visible then)
+			switch {
+			case strings.Contains(body, "main.unlockWorker"):
+				g.unlockers++
+				if strings.Contains(head, "[chan send") {
+					g.senders++
+				}
+			case strings.Contains(body, "WaitGroup).Wait") && (strings.Contains(head, "[semacquire") || strings.Contains(head, "[sync.WaitGroup.Wait")):
 				g.lockParked++
-			} else {
+			default:
 				g.lockBusy++
-			}
-		case strings.Contains(body, "main.unlockWorker"):
-			g.unlockers++
-			if strings.Contains(head, "[chan send") {
-				g.senders++
 			}
 		}
 	}
@@ -102,7 +107,7 @@ func (sc *scr) quiesce() string {
 			return fmt.Sprintf("not quiescent after 60 s: %+v pending=%d", g, sc.sched.VPending())
 		}
 		runtime.Gosched()
-		time.Sleep(20 * time.Microsecond)
+		time.Sleep(100 * time.Microsecond)
 	}
 }
 
@@ -167,7 +172,8 @@ func (sc *scr) keysOf(i int) [][]byte {
 	return ks
 }
 
-func runScript(id string, c *config, actions []string) {
+func runScript(id string, c *config, fixed []string, next func(sc *scr, step int) string) {
+	var actions []string
 	sc := &scr{cfg: c, byTS: map[uint64]int{}}
 	sc.sched = latch.NewScheduler(uint(c.size))
 	sc.lat = sc.sched.VLatches()
@@ -188,7 +194,17 @@ func runScript(id string, c *config, actions []string) {
 		fmt.Fprintf(out, "TS\t%d\t%d\t%d\t%s\n", i, t.start, t.commit, ints(t.keys))
 	}
 	nfail := 0
-	for _, a := range actions {
+	for step := 0; ; step++ {
+		var a string
+		if next != nil {
+			a = next(sc, step)
+		} else if step < len(fixed) {
+			a = fixed[step]
+		}
+		if a == "" {
+			break
+		}
+		actions = append(actions, a)
 		res := "-"
 		func() {
 			defer func() {
@@ -235,7 +251,7 @@ func runScript(id string, c *config, actions []string) {
 				deadline := time.Now().Add(60 * time.Second)
 				for {
 					g := goroutines()
-					if g.senders == want && g.unlockers == want && (len(todo) <= 101 || sc.sched.VPending() == 100) {
+					if int(done.Load()) == len(todo)-want && g.senders == want && g.unlockers == want && g.lockBusy == 0 {
 						break
 					}
 					if time.Now().After(deadline) {
@@ -275,47 +291,30 @@ func runScript(id string, c *config, actions []string) {
 	totals.nfail += nfail
 }
 
-// random script: every prefix is legal (Lock only once per txn, UnLock only for returned locks)
-func genScript(rng *rand.Rand, c *config, withClose bool) []string {
-	n := len(c.txns)
-	st := make([]byte, n) // N, L (lock issued), U
-	var acts []string
-	closedAt := -1
-	if withClose {
-		closedAt = 2 + rng.Intn(2*n)
-	}
-	for step := 0; step < 4*n; step++ {
-		if step == closedAt {
-			acts = append(acts, "X")
-			continue
+// random client: Lock a transaction not started yet, UnLock one whose Lock() returned, Close() once at closeAt
+func randomClient(rng *rand.Rand, n int, closeAt int) func(sc *scr, step int) string {
+	return func(sc *scr, step int) string {
+		if step >= 5*n {
+			return ""
+		}
+		if step == closeAt {
+			return "X"
 		}
 		var cand []string
 		for i := 0; i < n; i++ {
-			switch st[i] {
-			case 0:
+			switch {
+			case sc.status[i] == 'N':
 				cand = append(cand, "L"+strconv.Itoa(i))
-			case 'L':
+			case sc.status[i] == 'B' && sc.ret[i].Load():
 				cand = append(cand, "U"+strconv.Itoa(i))
 			}
 		}
 		if len(cand) == 0 {
-			break
+			return ""
 		}
-		a := cand[rng.Intn(len(cand))]
-		i, _ := strconv.Atoi(a[1:])
-		if a[0] == 'L' {
-			st[i] = 'L'
-		} else {
-			st[i] = 'U'
-		}
-		acts = append(acts, a)
+		return cand[rng.Intn(len(cand))]
 	}
-	return acts
 }
-
-// U<i> of a lock that has not returned is illegal for a client: the generator cannot know who is blocked, so the
-// runner filters: an UnLock of a still blocked lock is postponed to the end of the script.
-func legalize(c *config, acts []string) []string { return acts }
 
 func schedMain(seed int64, thorough bool) {
 	rng := rand.New(rand.NewSource(seed*104729 + 5))
@@ -345,8 +344,11 @@ func schedMain(seed int64, thorough bool) {
 			tx = append(tx, txn{shuffled(rng, sub4[rng.Intn(len(sub4))]), s, cm})
 		}
 		c := &config{size: []int{1, 2, 4}[rng.Intn(3)], pat: []int{0, 1, 1, 0}, txns: tx}
-		acts := genScript(rng, c, j%4 == 1)
-		runScriptChecked(fmt.Sprintf("sc-%d", j), c, acts)
+		closeAt := -1
+		if j%4 == 1 {
+			closeAt = 2 + rng.Intn(2*nt)
+		}
+		runScript(fmt.Sprintf("sc-%d", j), c, nil, randomClient(rng, nt, closeAt))
 	}
 	// channel capacity: 130 locks on distinct keys, all unlocked while run() is stuck: 1 in run(), 100 buffered, 29 blocked senders
 	for _, nt := range []int{130, 101, 60} {
@@ -360,65 +362,9 @@ func schedMain(seed int64, thorough bool) {
 		}
 		acts = append(acts, "M")
 		c := &config{size: 2, pat: pat, txns: tx}
-		runScript(fmt.Sprintf("cap-%d", nt), c, acts)
+		runScript(fmt.Sprintf("cap-%d", nt), c, acts, nil)
 	}
 	summary()
-}
-
-// a client may only UnLock a lock whose Lock() returned: drop UnLocks of locks that are still blocked at that point
-// (decided while running, the dropped action is simply not printed)
-func runScriptChecked(id string, c *config, acts []string) {
-	// dry run on a private scheduler to learn which UnLocks are legal would double the cost; instead filter online
-	runScriptOnline(id, c, acts)
-}
-
-func runScriptOnline(id string, c *config, acts []string) {
-	// same as runScript but skipping illegal UnLocks; implemented by a small wrapper around the action list
-	filtered := make([]string, 0, len(acts))
-	// learn legality with a throw-away real run
-	sc := &scr{cfg: c, byTS: map[uint64]int{}}
-	sc.sched = latch.NewScheduler(uint(c.size))
-	sc.lat = sc.sched.VLatches()
-	for k := range c.pat {
-		sc.kb = append(sc.kb, keyBytes(sc.lat, c.size, k, c.pat[k]))
-	}
-	n := len(c.txns)
-	sc.locks = make([]*latch.Lock, n)
-	sc.ret = make([]atomic.Bool, n)
-	sc.status = []byte(strings.Repeat("N", n))
-	for _, a := range acts {
-		ok := true
-		switch a[0] {
-		case 'L':
-			i, _ := strconv.Atoi(a[1:])
-			go lockWorker(sc, i, sc.keysOf(i))
-		case 'U':
-			i, _ := strconv.Atoi(a[1:])
-			if !sc.ret[i].Load() {
-				ok = false
-			} else {
-				cm := c.txns[i].commit
-				if sc.locks[i].IsStale() {
-					cm = 0
-				}
-				sc.locks[i].SetCommitTS(cm)
-				sc.sched.UnLock(sc.locks[i])
-			}
-		case 'X':
-			sc.sched.Close()
-			sc.closed = true
-		}
-		if sc.quiesce() != "" {
-			break
-		}
-		if ok {
-			filtered = append(filtered, a)
-		}
-	}
-	if !sc.closed {
-		sc.sched.Close()
-	}
-	runScript(id, c, filtered)
 }
 
 var _ = sort.Ints
